@@ -403,7 +403,8 @@ def run_impl(lines):
     i.e. a mismatch with the model, never a crash of the harness"""
     im = Impl()
     out = []
-    for l in lines:
+    for i, l in enumerate(lines):
+        beat("correspondence: implementation side", {"script_up_to_the_command_that_does_not_return": lines[:i + 1]})
         try:
             out.append(im.step(l))
         except (KeyboardInterrupt, SystemExit):
